@@ -211,6 +211,8 @@ def insertGen (out : AMap Reg) : Option (Reg × AVal) → AMap Reg
 def preRules (cn : CNode) (inReg : AMap Reg) : AMap Reg :=
   let n := cn.node
   let out0 := (RegSet.toList n.killReg).foldl AMap.erase inReg
+  -- a function's entry node is where its calls arrive: nothing that came in is kept
+  let out0 : AMap Reg := if n.isFunctionEntry then [] else out0
   let out1 := if n.callsTo.isSome then (RegSet.toList returnAddrSet).foldl AMap.erase out0 else out0
   -- an environment call overwrites its result registers (signature from the *new* reg-in)
   let cnIn : CNode := { cn with regIn := inReg }
